@@ -71,7 +71,7 @@ type Run struct {
 	// Nodes[0] is used; with a strategy there is one entry per node.
 	Nodes []NodeData `json:"nodes"`
 	// Fault: "" | "accounts-error" (the by-index lookup fails) | "accounts-epoch-error" (the
-	// whole-epoch lookup fails) | "accounts-error-both" | "sign-error" | "zero-sigs" | "no-account" | "submit-error"
+	// whole-epoch lookup fails) | "accounts-error-both" | "sign-error" | "sign-batch-error" (requests for two or more accounts fail, single-account requests succeed) | "zero-sigs" | "no-account" | "submit-error"
 	// (a failing data fetch is Nodes[i].Err).
 	Fault string `json:"fault,omitempty"`
 	Mask  []bool `json:"mask,omitempty"` // per Vals entry: zero signature / no account
@@ -418,13 +418,31 @@ func (s *signerD) SignBeaconAttestations(ctx context.Context,
 			req.sigs[i] = makeSig(v, seq, digest(uint64(slot), uint64(committeeIndices[i]), blockRoot, uint64(sourceEpoch), sourceRoot, uint64(targetEpoch), targetRoot))
 		}
 	}
-	if r != nil && r.Fault == "sign-error" {
+	if r != nil && (r.Fault == "sign-error" || (r.Fault == "sign-batch-error" && len(accounts) >= 2)) {
 		req.failed = true
 		w.signReqs = append(w.signReqs, req)
 		return nil, errors.New("scripted signing failure")
 	}
 	w.signReqs = append(w.signReqs, req)
 	return append([]phase0.BLSSignature(nil), req.sigs...), nil
+}
+
+// SignBeaconAttestation is the single-account signing interface of services/signer.
+func (s *signerD) SignBeaconAttestation(ctx context.Context,
+	account e2wtypes.Account,
+	slot phase0.Slot,
+	committeeIndex phase0.CommitteeIndex,
+	blockRoot phase0.Root,
+	sourceEpoch phase0.Epoch,
+	sourceRoot phase0.Root,
+	targetEpoch phase0.Epoch,
+	targetRoot phase0.Root,
+) (phase0.BLSSignature, error) {
+	sigs, err := s.SignBeaconAttestations(ctx, []e2wtypes.Account{account}, slot, []phase0.CommitteeIndex{committeeIndex}, blockRoot, sourceEpoch, sourceRoot, targetEpoch, targetRoot)
+	if err != nil {
+		return phase0.BLSSignature{}, err
+	}
+	return sigs[0], nil
 }
 
 type submitterD struct{ w *world }
@@ -603,7 +621,7 @@ func (g *genState) script(t *rapid.T, r *Run) {
 			r.Nodes[len(r.Nodes)-1].Err = false
 		}
 	}
-	r.Fault = rapid.SampledFrom([]string{"", "", "", "", "", "accounts-error", "accounts-error", "accounts-epoch-error", "accounts-error-both", "sign-error", "zero-sigs", "no-account", "submit-error"}).Draw(t, "fault")
+	r.Fault = rapid.SampledFrom([]string{"", "", "", "", "", "accounts-error", "accounts-error", "accounts-epoch-error", "accounts-error-both", "sign-error", "sign-batch-error", "zero-sigs", "no-account", "submit-error"}).Draw(t, "fault")
 	r.Mask = nil
 	if r.Fault == "zero-sigs" || r.Fault == "no-account" {
 		for range r.Vals {
